@@ -243,6 +243,9 @@ def run(ctx):
 
     from .server_common import guard_always_disarmed
     guard_always_disarmed(ctx, 'C11.guard', S)
+    # the guards' clean-up requests are never dropped before they reach the queue
+    from .common import cancel_always_enqueues
+    cancel_always_enqueues(ctx, 'C11.guard')
 
 def _locals_of(P, g, agg_stmt, field):
     """locals that (through temporaries) feed the given field of an aggregate statement"""
